@@ -55,6 +55,9 @@ var policyTexts = []string{
 	`permit(principal, action, resource) when { principal is U in context.g };`,
 	`forbid(principal, action, resource) when { context.g.containsAny([principal, resource]) && resource is G in [principal, G::"g1"] };`,
 	`permit(principal, action, resource) when { context.g.isEmpty() || context.g.containsAll([G::"g1"]) || context.g == [resource] };`,
+	// an if whose condition depends on the variable (and fails for some of its values) while both branches are already decided, equal or not
+	`permit(principal, action, resource) when { if context.a > 1 then principal == U::"alice" else resource == G::"g1" };`,
+	`forbid(principal, action, resource) when { (if context.a then 1 else 1) == 1 || (if context.r.b < 2 then principal else principal) == U::"bob" };`,
 }
 
 var policies []*cedar.Policy
